@@ -120,3 +120,26 @@ Proof.
   - unfold Rmax. destruct (Rle_dec 0 (- (3 - 1))); lra.
   - replace (1 - 3) with (- (2)) by lra. rewrite Rabs_Ropp. apply Rabs_pos_eq. lra.
 Qed.
+
+(* the list handed to SciPy: one dict per written relation, position by position, and the points SciPy may return
+   are exactly those at which EVERY written relation holds *)
+Theorem handover_length : forall cs, List.length (scipy_constraints cs) = List.length cs.
+Proof. intro cs. unfold scipy_constraints. apply map_length. Qed.
+
+Theorem handover_nth : forall cs i c, nth_error cs i = Some c ->
+  nth_error (scipy_constraints cs) i = Some (dict_type (snd c), c).
+Proof. intros cs i c H. unfold scipy_constraints. rewrite nth_error_map, H. reflexivity. Qed.
+
+Lemma dict_accepts_iff : forall rho penv c, dict_accepts rho penv (dict_of c) <-> relation_holds rho penv c.
+Proof.
+  intros rho penv [e s]. unfold dict_accepts, relation_holds, dict_of. cbn [fst snd].
+  destruct s; cbn [dict_type dict_fun]; split; intro; lra.
+Qed.
+
+Theorem handover_feasible_iff : forall rho penv cs,
+  List.Forall (dict_accepts rho penv) (scipy_constraints cs) <-> List.Forall (relation_holds rho penv) cs.
+Proof.
+  intros rho penv cs. unfold scipy_constraints. rewrite List.Forall_map.
+  split; intro H; eapply List.Forall_impl; try exact H; intros c Hc; apply dict_accepts_iff; exact Hc.
+Qed.
+
